@@ -116,7 +116,8 @@ def run_job(job):
                             a, b = indlib.as_array(v), indlib.as_array(full.get(fld))
                             if a is None or b is None or a.ndim == 0:
                                 continue
-                            i = indlib.equal_values(a, b, rel=0.0, absl=0.0)
+                            # (not bit-exact: numpy's vectorised log/exp may differ in the last ulp with the alignment of the input buffer)
+                            i = indlib.equal_values(a, b, scale=indlib.scale_of(X, b))
                             if i is not None:
                                 viol.append({'key': f'not_repeatable:{name}:{fld}',
                                              'msg': f'{name} returned different values for equal input (index {i})',
